@@ -153,6 +153,14 @@ class Session:
         l0, s0, c0 = len(self.kern.log), len(self.peer.sent), len(self.peer.connects)
         u0 = len(self.loop.unhandled)
         t0 = self.loop.time()
+        if self.cfg.get('same_command'):
+            # the very same command OBJECT is executed again and again (as the inverter classes do with their prepared
+            # _READ_RUNNING_DATA / _READ_DEVICE_VERSION_INFO commands)
+            if getattr(self, '_cmd', None) is None:
+                self._cmd = make_command(self.p, kind)
+            _the_cmd = self._cmd
+        else:
+            _the_cmd = None
         if in_cancelled_task:
             # the request is issued from a task that swallowed a cancellation earlier (a clean-up handler, a poll loop that
             # caught CancelledError): Task.cancelling() is still > 0 there
@@ -164,10 +172,10 @@ class Session:
                     await asyncio.sleep(0)
                 except asyncio.CancelledError:
                     pass
-                return await _exec(make_command(self.p, kind), self.p)
+                return await _exec(_the_cmd or make_command(self.p, kind), self.p)
             res = self._run(w())
         else:
-            res = self._run(_exec(make_command(self.p, kind), self.p))
+            res = self._run(_exec(_the_cmd or make_command(self.p, kind), self.p))
         t1 = self.loop.time()
         if settle:
             self.loop.settle(0)
